@@ -21,7 +21,7 @@ RULE = ('every public callable reachable from the bct namespace (152; found by i
         'symmetric} x {zero diagonal, non-zero diagonal} on 5 nodes (6 for the undirected binary one, disconnected variants '
         'included), plus for single-matrix programs every binary 3-node digraph and every signed symmetric 3-node matrix with '
         'zero / non-zero diagonal, x community vectors {1..k, non-contiguous, zero-based} x every value of each boolean/enum flag; randomised '
-        'routines with an integer seed on the C05 argument table; a program (function x flag combination) is non-trivial when '
+        'routines with an integer seed on the C05 argument table and along their first 200 (2000) generator-answer paths under the scripted generator; a program (function x flag combination) is non-trivial when '
         'it returned normally on at least one input')
 ASSUMPTIONS = ['copy=False calls of the thresholding/conversion utilities are exempt by definition (covered by C17)',
                'excluded programs: plotting / file output (adjacency_plot_und, writetoPAJ, make_motif34lib), listed in the evidence',
@@ -263,7 +263,54 @@ PROGS = None
 
 def plan(ctx):
     progs, uncovered = build_programs()
-    return [('prog', i) for i in range(len(progs))] + [('meta', -1)]
+    units = [('prog', i) for i in range(len(progs))] + [('meta', -1)]
+    # randomised routines: also along the first generator-answer paths (a mutation may sit on a retry / rejection branch
+    # that one integer seed never takes)
+    for name in sorted(stb.TABLE):
+        if isinstance(stb.TABLE[name], list):
+            for idx in range(len(stb.TABLE[name])):
+                units.append(('paths', (name, idx, 2000 if ctx.thorough else 200)))
+    return units
+
+
+def explore_paths(t, name, idx, cap):
+    from bctmc.explorer import Explorer
+    from bctmc.runner import quiet
+    args0, kw0 = stb.TABLE[name][idx]
+    state = {}
+
+    def run(rng):
+        args = stb.clone(args0)
+        kw = stb.clone(kw0)
+        state['args'], state['kw'] = args, kw
+        state['before'] = ([snap(a) for a in args], {k: snap(v) for k, v in kw.items()})
+        return getattr(bct, name)(*args, **dict(kw, seed=rng))
+
+    def changed():
+        if 'args' not in state:
+            return None
+        ba, bk = state['before']
+        for pos, (a, b) in enumerate(zip(state['args'], ba)):
+            if snap(a) != b:
+                return 'positional %d' % pos
+        for k, b in bk.items():
+            if snap(state['kw'][k]) != b:
+                return 'keyword %s' % k
+        return None
+
+    def on_complete(status, value, trace):
+        t.c['evaluations'] += 1
+        which = changed()
+        if which:
+            t.viol(name, 'argument_unchanged', {'program': name + ' (scripted generator)', 'args_index': idx,
+                                                'answers': list(trace), 'which': which}, tags={'outcome': status})
+            return True
+        return False
+    ex = Explorer(run, max_executions=cap, max_seconds=60)
+    with quiet():
+        st = ex.explore(on_complete)
+    t.c['path_executions'] += st['executions']
+    t.c['nontrivial'] += 1 if st['completed'] else 0
 
 
 def work(unit):
@@ -279,6 +326,9 @@ def work(unit):
             t.note('excluded: %s (%s)' % (nm, why))
         t.c['uncovered_public_functions'] = len(uncovered)
         t.c['programs'] = len(progs)
+        return t
+    if unit[0] == 'paths':
+        explore_paths(t, *unit[1])
         return t
     label, fname, builder = progs[unit[1]]
     f = getattr(bct, fname)
@@ -321,6 +371,9 @@ def _restore(s):
 
 def replay(rec):
     t = Tally(PROPERTY)
+    if 'answers' in rec['case']:
+        explore_paths(t, rec['function'], rec['case']['args_index'], 2000)
+        return t
     progs, _ = build_programs()
     for i, (label, fname, builder) in enumerate(progs):
         if label == rec['case']['program']:
